@@ -15,7 +15,8 @@ def spec(tier, seed):
     jobs.append(Job("h263", "c02_idct_1d_one_hot", 1200, tagged=True, group="1-D transform wiring"))
     for (w, h) in sizes:
         gen_i += g.idct_inst("contract", w, h)
-        jobs.append(Job("h263", g.idct_name("contract", w, h), 1200, group="inverse transform: every sparsity variant stays inside the plane", params={"plane": "%dx%d" % (w, h)}))
+        for (nm, b_, v_) in g.idct_contract_instances(w, h):
+            jobs.append(Job("h263", nm, 1200, tagged=True, group="inverse transform: every sparsity variant stays inside its block and the plane", params={"plane": "%dx%d" % (w, h), "block": b_, "variant": ["", "Dc", "Horiz", "Vert", "Full"][v_]}))
     c11spec = c11.spec(tier, seed)
     jobs += [j for j in c11spec["jobs"] if j.expect == "pass"]
     generated = {"h263/src/decoder/cpu/idct.rs": gen_i}
